@@ -51,7 +51,7 @@ for k in sorted(os.listdir(os.path.join(wt, 'SEED'))):
         e0 = dict(os.environ, VERIF_EVIDENCE_DIR=os.path.join(d, 'ev0'), VERIF_REPLAY_DIR=os.path.join(d, 'rp0'), VERIF_NO_CONFIRM='1')
         base = run([os.path.join(V, 'check'), pid, '--tier', 'quick'], cwd=V, env=e0)
         bg = groups_of(base.stdout) if base.returncode == 1 else set()
-        for tier in ('quick', 'thorough'):
+        for tier in (('quick', 'thorough') if '--thorough' in sys.argv else ('quick',)):
             e1 = dict(os.environ, VERIF_REPO=d, VERIF_EVIDENCE_DIR=os.path.join(d, 'ev'), VERIF_REPLAY_DIR=os.path.join(d, 'rp'))
             c = run([os.path.join(V, 'check'), pid, '--tier', tier], cwd=V, env=e1)
             new = groups_of(c.stdout) - bg
